@@ -218,8 +218,8 @@ impl IndexEntry {
         let mut cursor = Cursor::new(data);
         match Self::read_be(&mut cursor) {
             Ok(entry) => {
-                // Skip empty entries
-                if entry.key == [0u8; 9] {
+                // Skip empty entries: zero fill, not a zero key with a location
+                if data[..18].iter().all(|&b| b == 0) {
                     return Err(StorageError::Index("Empty entry".to_string()));
                 }
                 Ok(entry)
@@ -404,8 +404,10 @@ impl IndexManager {
         while offset + entry_size <= entry_data.len() {
             let entry_bytes = &entry_data[offset..offset + entry_size];
 
-            // Check if entry is valid (non-zero key)
-            if entry_bytes[..9].iter().any(|&b| b != 0) {
+            // Zero fill is not an entry. A record whose key is all zero but whose
+            // location or size is not is an entry: nine zero bytes are a valid
+            // (truncated) key.
+            if entry_bytes.iter().any(|&b| b != 0) {
                 // Use fixed parsing for IDX Journal format
                 if let Ok(entry) = IndexEntry::from_packed(
                     entry_bytes,
@@ -1413,6 +1415,30 @@ mod tests {
                 .to_string()
                 .contains("Empty entry")
         );
+    }
+
+    #[tokio::test]
+    async fn test_zero_key_with_location_is_an_entry() {
+        // Nine zero bytes are a valid truncated key: only an all-zero record is
+        // fill. Such an entry used to be dropped when the sorted section was
+        // loaded again.
+        let entry = IndexEntry::new([0u8; 9], 3, 0x1000, 500);
+        let packed = entry.to_packed(9, 30, 32);
+        let parsed = IndexEntry::from_packed(&packed, 9, 30, 32).expect("an entry, not fill");
+        assert_eq!(parsed, entry);
+
+        // through flush + reload
+        let dir = tempfile::tempdir().expect("tempdir");
+        let key = cascette_crypto::EncodingKey::from_bytes([0u8; 16]);
+        {
+            let mut manager = IndexManager::new(dir.path());
+            manager.add_entry(&key, 3, 0x1000, 500).expect("add");
+            manager.flush_all_updates().expect("flush");
+        }
+        let mut manager = IndexManager::new(dir.path());
+        manager.load_all().await.expect("load");
+        let found = manager.lookup(&key).expect("zero key survives the reload");
+        assert_eq!((found.archive_id(), found.archive_offset(), found.size), (3, 0x1000, 500));
     }
 
     #[test]
